@@ -589,7 +589,7 @@ func (fc *FnCtx) applyContract(ci *calleeInfo, args []Val, writes map[string]boo
 			} else if !fc.isInit {
 				o := "o!f"
 				var alts []Term
-				alts = append(alts, app("isfresh", o, fc.alloc0))
+				alts = append(alts, app("isfresh", o, fc.alloc0), eq(o, "0"))
 				for _, p := range fc.modPreds[k] {
 					alts = append(alts, p(o))
 				}
